@@ -73,6 +73,7 @@ def cases(tier, rng):
             tok = "none" if idlen is None else f"@{idlen}:{idlen}"
             out.append(Case(f"ready-{t}-{idlen}", "codec", [f"encready {t} {tok}"], ["ready"]))
     out += socket_cases(tier)
+    out += pressure_cases(tier)
     return out
 
 
@@ -100,7 +101,112 @@ def socket_cases(tier):
     return out
 
 
+def pressure_cases(tier):
+    """what a SOCKET's connection carries when the transport takes the bytes in pieces: sends under partial write credit,
+    sends ABANDONED after a partial write and followed by another send, publishes to a subscriber that stalls between two
+    messages.  Everything the socket wrote after the handshake, concatenated, must still be a ZMTP 3.0 frame sequence that
+    an independent RFC-23 parser cuts into messages that were SENT, in order (whole messages may be missing only where
+    the socket type may drop them: PUB at its high-water mark) — never a torn or overwritten frame."""
+    from vlib import worldgen as wg
+
+    out = []
+    n = 0
+    msgs = [[b"first", b"x" * 60], [b"second"], [b"", b"third", b""], [b"4"]]
+    for t, peer in (("ROUTER", "DEALER"), ("DEALER", "ROUTER"), ("PUSH", "PULL"), ("REP", "REQ"), ("REQ", "REP"), ("PUB", "SUB"),
+                    ("XPUB", "SUB")):
+        for credits in ((7, None), (0, 3, None), (1, 1, 1, None), (66, None)):
+            sc = wg.Script()
+            sc.sock(1, t)
+            sc.attach(1, 1, peer, b"p1")
+            if t in ("PUB", "XPUB"):
+                sc.reveal_msg(1, [b"\x01"])
+                if t == "PUB":
+                    sc.add("drain")
+                else:
+                    sc.recv_once(1)
+            sc.add("wire 1")
+            sent = []
+            for i, m in enumerate(msgs):
+                frames = ([b"p1"] + m) if t == "ROUTER" else m
+                if t == "REP":
+                    sc.reveal_msg(1, [b"", b"q%d" % i])
+                    sc.recv_once(1)
+                c = credits[min(i, len(credits) - 1)]
+                sc.add(f"credit 1 {'inf' if c is None else c}")
+                f = sc.fut()
+                sc.add(f"send {f} 1 {wg.mtok(frames)}", f"poll {f}")
+                if c is not None and t in ("ROUTER", "REQ", "REP"):
+                    sc.add(f"drop {f}")                    # abandoned after a partial write (timeout / select!)
+                elif c is not None and t in ("DEALER", "PUSH"):
+                    # (an abandoned round-robin send takes its peer out of the rotation: nothing would follow) — resumed instead
+                    sc.add("credit 1 inf", f"poll {f}", f"drop {f}")
+                sc.add("wire 1")
+                if t == "REQ":
+                    sc.add("credit 1 inf")
+                    g = sc.fut()
+                    sc.add(f"recv {g} 1", f"poll {g}", f"drop {g}")
+                    sc.reveal_msg(1, [b"", b"r%d" % i])
+                    g = sc.fut()
+                    sc.add(f"recv {g} 1", f"poll {g}", f"drop {g}", "wire 1")
+                wire_msg = {"REQ": [b""] + m, "REP": [b""] + m}.get(t, m)
+                sent.append(wire_msg)
+            sc.add("credit 1 inf")
+            if t not in ("REQ", "REP"):
+                f = sc.fut()
+                last = [b"p1", b"last"] if t == "ROUTER" else [b"last"]
+                sc.add(f"send {f} 1 {wg.mtok(last)}", f"poll {f}", f"poll {f}", "wire 1")
+                sent.append([b"last"])
+            c = sc.case(f"socket-pressure-{t}#{n}", ["socket-pressure"])
+            c.expect = ("pressure", t, sent)
+            out.append(c)
+            n += 1
+    return out
+
+
+def pressure_oracle(case, lines):
+    from vlib import zmtp
+
+    if any(l.startswith(("PANIC", "ABORT", "TIMEOUT")) for l in lines):
+        return "implementation panicked/aborted"
+    _, t, sent = case.expect
+    deltas = [l.split(" ", 1)[1] for op, l in zip(case.ops, lines[1:]) if op == "wire 1"][1:]
+    if any("#" in d for d in deltas):
+        return None
+    data = bytes.fromhex("".join(d for d in deltas if d != "."))
+    # a frame may still be incomplete at the end (a send abandoned mid-write and never resumed is the application's doing
+    # only if nothing follows — here every abandoned send is followed by a completed one, so the stream must be whole)
+    try:
+        frames = zmtp.parse_frames(data)
+    except ValueError as e:
+        return (f"what the {t} socket wrote under back-pressure is not a ZMTP 3.0 frame sequence: {e} "
+                f"(wire after the handshake: {data.hex()[:120]}…)")
+    got, cur = [], []
+    for fl, body in frames:
+        if fl & 4:
+            return f"a command frame in the middle of the {t} socket's message stream"
+        cur.append(body)
+        if not fl & 1:
+            got.append(cur)
+            cur = []
+    if cur:
+        return f"the {t} socket's stream ends inside a multipart message: {cur}"
+    # got must be a subsequence of sent (in order)
+    i = 0
+    for m in got:
+        while i < len(sent) and sent[i] != m:
+            i += 1
+        if i == len(sent):
+            return (f"the {t} socket's wire carries a message that was never sent, or out of order: {[x.hex() for x in m]} "
+                    f"(sent: {[[x.hex() for x in mm] for mm in sent]})")
+        i += 1
+    if not got or got[-1] != sent[-1]:
+        return f"the last message, sent on a writable connection, is not the last message on the {t} socket's wire"
+    return None
+
+
 def socket_oracle(case, lines):
+    if case.expect and case.expect[0] == "pressure":
+        return pressure_oracle(case, lines)
     from vlib import zmtp
 
     if any(l.startswith(("PANIC", "ABORT", "TIMEOUT")) for l in lines):
